@@ -118,6 +118,8 @@ static bool check_fixed64(uint64_t v, int align) {
 }
 // over-long / unterminated runs: v = number of continuation bytes
 static bool check_packed(uint64_t k) {
+  // k continuation bytes followed by a terminator; beyond 9 continuation bytes the byte string is no valid 64-bit varint
+  // and what length_packed answers is not specified, so only the "no terminator inside the window => 0" half is checked there
   if (k > 40) k = 40;
   uint8_t *buf = (uint8_t *)malloc((size_t)k + 1);
   for (uint64_t i = 0; i < k; i++) buf[i] = (uint8_t)(0x80 | (i * 37 & 0x7f));
@@ -125,7 +127,7 @@ static bool check_packed(uint64_t k) {
   unsigned lp = mtbl_varint_length_packed(buf, (size_t)k + 1);
   unsigned lu = mtbl_varint_length_packed(buf, (size_t)k);  // unterminated within the given length
   bool ok = true;
-  if (lp != k + 1) { snprintf(g_err, sizeof g_err, "mtbl_varint_length_packed: %llu continuation bytes + terminator -> %u, expected %llu", (unsigned long long)k, lp, (unsigned long long)k + 1); ok = false; }
+  if (k <= 9 && lp != k + 1) { snprintf(g_err, sizeof g_err, "mtbl_varint_length_packed: %llu continuation bytes + terminator -> %u, expected %llu", (unsigned long long)k, lp, (unsigned long long)k + 1); ok = false; }
   else if (lu != 0) { snprintf(g_err, sizeof g_err, "mtbl_varint_length_packed: %llu continuation bytes without terminator -> %u, expected 0", (unsigned long long)k, lu); ok = false; }
   if (ok && k >= 5) {
     uint32_t d = 123;
